@@ -57,7 +57,7 @@ theorem comp_domain_rt (kw : List Char) (hkw : kw = "strand".toList ∨ kw = "su
         blanks e ++ ['\n'] = kw ++ Pil.compText (a + 1) nc m b sign c d ds e := by
       rw [hsp]; simp [blanks, Pil.compText, List.append_assoc]
     rw [htext]
-    exact Pil.comp_parse kw hkw (a + 1) nc m b sign hs c d ds e hnc hm (hdom d (hd2 d (by simp)))
+    exact Pil.comp_parse kw hkw (a + 1) (Nat.succ_pos a) nc m b sign hs c d ds e hnc hm (hdom d (hd2 d (by simp)))
       (fun x hx => hdom x (hd2 x (List.mem_cons_of_mem _ hx)))
 
 /-- **resting macrostates** with any number of members -/
@@ -94,11 +94,15 @@ theorem resting_rt (kw : List Char) (hkw : kw = "state".toList ∨ kw = "macrost
     exact Pil.rest_parse kw hkw a nc m b c mc mm ds e hnc hm' hmc hmm
       (fun x hx => hid x (hm2 x (List.mem_cons_of_mem _ hx)))
 
-/-- no statement keyword is a prefix of `name` followed by a blank (otherwise an earlier alternative of `stmt`
-    takes the line: the recorded known finding) -/
-def NoKeywordPrefix (name : List Char) : Prop :=
-  ∀ kw ∈ ["length", "domain", "sequence", "sup-sequence", "strand", "complex", "structure", "kinetic", "reaction", "state", "macrostate"],
-    ¬ (kw.toList <+: name ++ [' '])
+/-- the eleven statement keywords of the PIL grammar.
+
+    While they were `Literal`s, the kernel theorems below needed the hypothesis that no keyword is a prefix of
+    `name ++ " "` (`NoKeywordPrefix name`, now deleted): an earlier alternative of `stmt` took a line whose name merely
+    started with a keyword (the recorded known finding).  They are `Keyword`s now and the theorems hold for EVERY
+    identifier `name` — see `keyword_prefixed_name_rt`. -/
+def keywords : List String :=
+  ["length", "domain", "sequence", "sup-sequence", "strand", "complex", "structure", "kinetic", "reaction", "state",
+    "macrostate"]
 
 /-- names of a kernel description are PIL-legal: domain names at non-break positions, "+" at breaks -/
 def LegalNames (seq : List String) (sst : List Char) : Prop :=
@@ -108,9 +112,9 @@ def LegalNames (seq : List String) (sst : List Char) : Prop :=
 
 /-- common preparation for the two kernel theorems -/
 theorem kernel_prep (name : List Char) (seq : List String) (sst : List Char) (toks : List Tree)
-    (hn : Ident name) (hk : NoKeywordPrefix name) (hl : LegalNames seq sst) (hne : sst ≠ [])
+    (hn : Ident name) (hl : LegalNames seq sst) (hne : sst ≠ [])
     (ht : kernelTokens seq sst = some toks) (X : List Char) :
-    ∃ nc m, name = nc :: m ∧ nc ∈ Pil.identChars ∧ (∀ x ∈ m, x ∈ Pil.identChars) ∧ Pil.NoKw (nc :: m) ∧
+    ∃ nc m, name = nc :: m ∧ nc ∈ Pil.identChars ∧ (∀ x ∈ m, x ∈ Pil.identChars) ∧
       seq.zip sst ≠ [] ∧ (∀ e ∈ seq.zip sst, Pil.LegalEnt e) ∧
       Pil.pItems (2 * (seq.zip sst).length + 1) (seq.zip sst) = some (toks, []) ∧
       name ++ " = ".toList ++ (kernelString seq sst).toList ++ X = Pil.kernelText nc m (seq.zip sst) X := by
@@ -123,32 +127,7 @@ theorem kernel_prep (name : List Char) (seq : List String) (sst : List Char) (to
       cases sst with
       | nil => exact absurd rfl hne
       | cons b bs => simp
-  refine ⟨nc, m, rfl, hnc, hm, ?_, hL, ?_, Pil.pItems_of_nestGo _ toks ht, ?_⟩
-  · intro s hs
-    have e1 : "length".toList = ['l', 'e', 'n', 'g', 't', 'h'] := rfl
-    have e2 : "domain".toList = ['d', 'o', 'm', 'a', 'i', 'n'] := rfl
-    have e3 : "sequence".toList = ['s', 'e', 'q', 'u', 'e', 'n', 'c', 'e'] := rfl
-    have e4 : "sup-sequence".toList = ['s', 'u', 'p', '-', 's', 'e', 'q', 'u', 'e', 'n', 'c', 'e'] := rfl
-    have e5 : "strand".toList = ['s', 't', 'r', 'a', 'n', 'd'] := rfl
-    have e6 : "complex".toList = ['c', 'o', 'm', 'p', 'l', 'e', 'x'] := rfl
-    have e7 : "structure".toList = ['s', 't', 'r', 'u', 'c', 't', 'u', 'r', 'e'] := rfl
-    have e8 : "kinetic".toList = ['k', 'i', 'n', 'e', 't', 'i', 'c'] := rfl
-    have e9 : "reaction".toList = ['r', 'e', 'a', 'c', 't', 'i', 'o', 'n'] := rfl
-    have e10 : "state".toList = ['s', 't', 'a', 't', 'e'] := rfl
-    have e11 : "macrostate".toList = ['m', 'a', 'c', 'r', 'o', 's', 't', 'a', 't', 'e'] := rfl
-    simp only [List.mem_cons, List.not_mem_nil, or_false] at hs
-    rcases hs with rfl | rfl | rfl | rfl | rfl | rfl | rfl | rfl | rfl | rfl | rfl
-    · rw [← e1]; exact hk _ (by simp)
-    · rw [← e2]; exact hk _ (by simp)
-    · rw [← e3]; exact hk _ (by simp)
-    · rw [← e4]; exact hk _ (by simp)
-    · rw [← e5]; exact hk _ (by simp)
-    · rw [← e6]; exact hk _ (by simp)
-    · rw [← e7]; exact hk _ (by simp)
-    · rw [← e8]; exact hk _ (by simp)
-    · rw [← e9]; exact hk _ (by simp)
-    · rw [← e10]; exact hk _ (by simp)
-    · rw [← e11]; exact hk _ (by simp)
+  refine ⟨nc, m, rfl, hnc, hm, hL, ?_, Pil.pItems_of_nestGo _ toks ht, ?_⟩
   · intro e he
     obtain ⟨i, hi⟩ := List.mem_iff_getElem?.mp he
     rw [List.getElem?_zip_eq_some] at hi
@@ -165,29 +144,43 @@ theorem kernel_prep (name : List Char) (seq : List String) (sst : List Char) (to
     simp [List.append_assoc]
 
 /-- **kernel-notation complexes**: writing `name = <kernel_string>` and parsing it yields exactly the token
-    forest of the kernel string, for arbitrarily nested, multi-stranded and empty-loop patterns -/
+    forest of the kernel string, for arbitrarily nested, multi-stranded and empty-loop patterns — and for every
+    identifier `name`, including names that start with (or are) a statement keyword -/
 theorem kernel_rt (name : List Char) (seq : List String) (sst : List Char) (toks : List Tree)
-    (hn : Ident name) (hk : NoKeywordPrefix name) (hl : LegalNames seq sst) (hne : sst ≠ [])
+    (hn : Ident name) (hl : LegalNames seq sst) (hne : sst ≠ [])
     (ht : kernelTokens seq sst = some toks) :
     parseDoc pil_env pil_grammar
       (String.ofList (name ++ " = ".toList ++ (kernelString seq sst).toList ++ ['\n'])) =
     some [.grp [.tok "kernel-complex", tokOf name, .grp toks]] := by
-  obtain ⟨nc, m, rfl, hnc, hm, hkw, hL, hleg, hp, htext⟩ := kernel_prep name seq sst toks hn hk hl hne ht ['\n']
+  obtain ⟨nc, m, rfl, hnc, hm, hL, hleg, hp, htext⟩ := kernel_prep name seq sst toks hn hl hne ht ['\n']
   rw [htext]
-  exact Pil.kernel_parse nc m _ toks hnc hm hkw hL hleg hp
+  exact Pil.kernel_parse nc m _ toks hnc hm hL hleg hp
+
+/-- the former known finding, stated explicitly (it is `kernel_rt` instantiated): a complex whose name starts with
+    a statement keyword — or is one, `suffix = []` — is a kernel complex.  (With `Literal` keywords `lengthy = 5` was
+    the domain-length statement `[dl-domain, y, 5]`.)  The membership `kw ∈ keywords` only documents the case of
+    interest; the proof does not use it. -/
+theorem keyword_prefixed_name_rt (kw : String) (_hkw : kw ∈ keywords) (suffix : List Char)
+    (seq : List String) (sst : List Char) (toks : List Tree)
+    (hn : Ident (kw.toList ++ suffix)) (hl : LegalNames seq sst) (hne : sst ≠ [])
+    (ht : kernelTokens seq sst = some toks) :
+    parseDoc pil_env pil_grammar
+      (String.ofList (kw.toList ++ suffix ++ " = ".toList ++ (kernelString seq sst).toList ++ ['\n'])) =
+    some [.grp [.tok "kernel-complex", tokOf (kw.toList ++ suffix), .grp toks]] :=
+  kernel_rt (kw.toList ++ suffix) seq sst toks hn hl hne ht
 
 /-- an unbalanced kernel pattern (a closing bracket too many) is rejected -/
 theorem kernel_extra_close_rejected (name : List Char) (seq : List String) (sst : List Char) (toks : List Tree)
-    (hn : Ident name) (hk : NoKeywordPrefix name) (hl : LegalNames seq sst) (hne : sst ≠ [])
+    (hn : Ident name) (hl : LegalNames seq sst) (hne : sst ≠ [])
     (ht : kernelTokens seq sst = some toks) :
     parseDoc pil_env pil_grammar
       (String.ofList (name ++ " = ".toList ++ (kernelString seq sst).toList ++ " )\n".toList)) = none := by
   have k : " )\n".toList = [' ', ')', '\n'] := rfl
   rw [k]
-  obtain ⟨nc, m, rfl, hnc, hm, hkw, hL, hleg, hp, htext⟩ :=
-    kernel_prep name seq sst toks hn hk hl hne ht [' ', ')', '\n']
+  obtain ⟨nc, m, rfl, hnc, hm, hL, hleg, hp, htext⟩ :=
+    kernel_prep name seq sst toks hn hl hne ht [' ', ')', '\n']
   rw [htext]
-  exact Pil.kernel_reject nc m _ toks hnc hm hkw hL hleg hp
+  exact Pil.kernel_reject nc m _ toks hnc hm hL hleg hp
 
 /-- a statement without a name is rejected -/
 theorem kernel_missing_name_rejected (rest : List Char) :
